@@ -341,6 +341,10 @@ def rule_topdown(ctx):
     roles.note('td_make', mk.path)
     roles.note('td_check', chk.path if chk else None)
     node_o = mk.orig_operand(ccall.args[1])
+    gcs = [mk.calls[o.key] for o in node_o if o.kind == 'call' and o.key in mk.calls]
+    good = len(gcs) == 1 and roles.get_or_create_task is not None and F.callee_body(gcs[0]) is not None and F.callee_body(gcs[0]).id == roles.get_or_create_task.id and \
+        all(o.kind == 'arg' and o.key == 2 for o in mk.orig_operand(gcs[0].args[1])) and bool(mk.orig_operand(gcs[0].args[1]))
+    R.ob('TD-node', key, good, 'the node checked / executed / memoised is the node of the task that was given' if good else 'the node is not looked up with the given task', ctx.where(mk), props=('C01', 'C15'))
     # (a) every exit that does not execute is a guarded reuse
     cont_true = set()
     chk_some = set()
